@@ -66,7 +66,11 @@ def run_gen():
     else:
         m = json.load(open(man))
         problems, files = list(m.get("problems", [])), m.get("files", {})
+        GEN_NOTES[:] = list(m.get("notes", []))
     return problems, files
+
+
+GEN_NOTES: list = []
 
 
 def strip_comments(src: str) -> str:
